@@ -81,11 +81,11 @@ macro_rules! ls_case {
 }
 
 ls_case!(ls_codes_1, 1, "1", 6);
-ls_case!(ls_codes_2, 2, "1;1", 7);
-ls_case!(ls_codes_3, 3, "1;1;1", 8);
-ls_case!(ls_codes_4, 4, "1;1;1;1", 9);
-ls_case!(ls_codes_5, 5, "1;1;1;1;1", 10);
-ls_case!(ls_codes_6, 6, "1;1;1;1;1;1", 11);
+ls_case!(ls_codes_2, 2, "1;1", 6);
+ls_case!(ls_codes_3, 3, "1;1;1", 6);
+ls_case!(ls_codes_4, 4, "1;1;1;1", 7);
+ls_case!(ls_codes_5, 5, "1;1;1;1;1", 8);
+ls_case!(ls_codes_6, 6, "1;1;1;1;1;1", 9);
 
 /// The three documented "no style" spellings (concrete).
 #[kani::proof]
